@@ -1310,7 +1310,7 @@ def setup(ctx):
 
 
 def strata(ctx):
-    n = ctx.n(1, 40)
+    n = ctx.n(1, 32)
     plan = [("exact", 130 * n), ("float", 80 * n), ("names", 30 * n), ("refclash", 16 * n), ("boolnum", 9 * n),
             ("gennames", 24 * n), ("samepath", 16 * n), ("sharedfn", 26 * n), ("permargs", 24 * n), ("body", 20 * n),
             ("compartment", 10 * n)]
